@@ -33,6 +33,14 @@ theorem monitored_good {e : Elem α β σ} {Inv : σ → Prop} {μ : σ → Nat}
     (cfg : MonCfg) (df : Bool) : Good (monitored e w cfg df) (fun s => Inv s.1) (fun s => μ s.1) B :=
   ⟨monitored_stepStable h.stable w cfg df, monitored_live h.live w cfg df⟩
 
+theorem monitored_delMeasure {e : Elem α β σ} {Inv : σ → Prop} {μ : σ → Nat} {B : Nat} (h : DelMeasure e Inv μ B)
+    (w : Nat) (cfg : MonCfg) (df : Bool) :
+    DelMeasure (monitored e w cfg df) (fun s => Inv s.1) (fun s => μ s.1) B where
+  inv_step s i hs := h.inv_step s.1 i hs
+  bound s hs := h.bound s.1 hs
+  dec s i hs hc := h.dec s.1 i hs hc
+
+
 /-- The whole trace of handshake outputs of a monitored element is the trace of the element alone. -/
 theorem monitored_outs (e : Elem α β σ) (w : Nat) (cfg : MonCfg) (df : Bool) :
     ∀ (ins : List (In α)) (s : σ × MonState), (monitored e w cfg df).outs s ins = e.outs s.1 ins := by
